@@ -35,25 +35,116 @@ open Jap.NS Jap.Channels
 
 /-! ## the unambiguous textual form -/
 
-/-- the canonical JSON text of every value of the grammar is read back to exactly that value -/
-theorem C05_text_roundtrip (v : Val) (h : safeVal v = true) : loadText (textOf v) = some v :=
+/-- the canonical JSON text of every value of the grammar is read back to exactly that value
+    (`norm`: a yes/no setting is carried by documents as its boolean; every other value is itself) -/
+theorem C05_text_roundtrip (v : Val) (h : safeVal v = true) : loadText (textOf v) = some (norm v) :=
   loadText_textOf v h
 
-/-- the text of an option / environment variable is read back at a position of the matching kind
-    (a string as it is at a str-typed position, canonical JSON elsewhere) -/
-theorem C05_arg_text_roundtrip (raw : Bool) (v : Val) (hr : raw = isStrVal v) (h : safeVal v = true) :
-    readLeaf raw (argText v).toList = some v := by
-  have : (argText v).toList = argChars v := by simp [argText, String.toList_ofList]
-  rw [this]; exact readLeaf_argChars raw v hr h
+/-- the text of an environment variable (or of `--k=text`) is read back at a position of the matching kind: a string as
+    it is at a str-typed position, a word at a yes/no option, the JSON list at a list-valued option, canonical JSON elsewhere -/
+theorem C05_env_text_roundtrip (kind : Kind) (v : Val) (hm : kindMatches kind v = true) (h : safeVal v = true) :
+    (readLeafK kind (envChars kind v)).map enc = some (enc v) :=
+  readLeafK_envChars kind v hm h
 
-/-- `load_basic` returns the same as the reader on the canonical text of every non-string scalar -/
-theorem C05_load_basic_agrees (s : Scalar) (h : ∀ x, s ≠ .str x) : loadBasic (textOf (.sc s)) = basicOf s := by
+/-- `load_basic` returns the same as the reader on the canonical text of every int, bool and null -/
+theorem C05_load_basic_agrees (s : Scalar) (h : ∀ x, s ≠ .str x) (h' : ∀ t, s ≠ .num t) :
+    loadBasic (textOf (.sc s)) = basicOf s := by
   have : (textOf (.sc s)).toList = scalarChars s := by simp [textOf, valChars, String.toList_ofList]
   unfold loadBasic
   rw [this]
-  rcases loadBasicL_scalarChars s with e | ⟨x, e⟩
+  rcases loadBasicL_scalarChars s with e | ⟨x, e⟩ | ⟨t, e⟩
   · exact e
   · exact absurd e (h x)
+  · exact absurd e (h' t)
+
+/-! ## floats as exact JSON number tokens
+
+A float setting is the TOKEN as written (sign, integer digits, optional fraction, optional exponent with optional sign).
+That every such token resolves as a float under the yaml loader is C01's certificate `C05_json_float_sub`
+(JSON numbers ⊆ the loader's float resolver; lean/Jap/Props/C01.lean) — cited, not re-proved here. -/
+
+/-- the reader returns the token, for every token of the JSON number grammar — unsigned exponents included -/
+theorem C05_float_token_roundtrip (t : NumTok) (h : wfTok t = true) :
+    loadText (textOf (.sc (.num t))) = some (.sc (.num t)) :=
+  loadText_textOf (.sc (.num t)) h
+
+/-- `1e5`, `2E3`, `1E-3`, `-1.50E+03` are tokens of the grammar (what `json.dumps` never writes, hand-written documents do);
+    `01.5`, `1.`, `.5`, `1e` are not -/
+theorem C05_float_token_examples :
+    loadText "1e5" = some (.sc (.num ⟨false, ['1'], none, some ⟨false, none, ['5']⟩⟩))
+    ∧ loadText "2E3" = some (.sc (.num ⟨false, ['2'], none, some ⟨true, none, ['3']⟩⟩))
+    ∧ loadText "1E-3" = some (.sc (.num ⟨false, ['1'], none, some ⟨true, some false, ['3']⟩⟩))
+    ∧ loadText "-1.50E+03" = some (.sc (.num ⟨true, ['1'], some ['5', '0'], some ⟨true, some true, ['0', '3']⟩⟩))
+    ∧ loadText "[1e5, 0.5]" = some (.list [.num ⟨false, ['1'], none, some ⟨false, none, ['5']⟩⟩, .num ⟨false, ['0'], some ['5'], none⟩])
+    ∧ loadText "01.5" = none ∧ loadText "1." = none ∧ loadText ".5" = none ∧ loadText "1e" = none := by decide
+
+/-! ## `ActionYesNo._boolean_type` (word table regenerated from the source: Gen/YesNoWords) -/
+
+/-- the word is compared lower-cased in BOTH membership tests: every capitalisation gives the same answer -/
+theorem C05_yesno_case_insensitive (w w' : List Char) (h : lower w = lower w') : boolWord w = boolWord w' := by
+  simp only [boolWord, Jap.Gen.ynAcceptedLowered, Jap.Gen.ynTrueLowered, if_true, h]
+
+/-- … so every capitalisation of true / yes gives True and every capitalisation of false / no gives False -/
+theorem C05_yesno_words (w : List Char) :
+    (lower w = ['t', 'r', 'u', 'e'] → boolWord w = some true) ∧ (lower w = ['y', 'e', 's'] → boolWord w = some true)
+    ∧ (lower w = ['f', 'a', 'l', 's', 'e'] → boolWord w = some false) ∧ (lower w = ['n', 'o'] → boolWord w = some false) := by
+  refine ⟨fun h => ?_, fun h => ?_, fun h => ?_, fun h => ?_⟩ <;>
+  · simp only [boolWord, Jap.Gen.ynAcceptedLowered, Jap.Gen.ynTrueLowered, if_true, h]
+    decide
+
+theorem C05_yesno_examples :
+    boolWord "True".toList = some true ∧ boolWord "YES".toList = some true ∧ boolWord "tRuE".toList = some true
+    ∧ boolWord "False".toList = some false ∧ boolWord "NO".toList = some false ∧ boolWord "maybe".toList = none
+    ∧ boolWord "1".toList = none := by decide
+
+/-- `--no_k=w` gives the negation of what `--k=w` gives (and the bare flags `--k` / `--no_k` give True / False) -/
+theorem C05_yesno_negation (P : Parser) (k : Key) (d : Decl) (n : YN) (t : List Char)
+    (hwf : wfKey k = true) (hno : stripNo (destL k) = none)
+    (hf : findDecl k.segs P.decls = some d) (hk : d.kind = .yesno n) (hn : n ≠ .bare) :
+    decodeArg P [String.ofList (optChars k ++ '=' :: t)]
+      = (boolWord t).map (fun b => (skeys P d.key.segs, encScalar (.bool b)))
+    ∧ decodeArg P [String.ofList (noChars k ++ '=' :: t)]
+      = (boolWord t).map (fun b => (skeys P d.key.segs, encScalar (.bool (!b)))) := by
+  have hK := destL_notEq hwf
+  have hf' : findDecl (segsOf (destL k)) P.decls = some d := by rw [segsOf_destL k (wfKey_noDot hwf)]; exact hf
+  have h1 := decodeArg_eq P (destL k) t hK
+  have h2 := decodeArg_eq P ('n' :: 'o' :: '_' :: destL k) t (no_notEq _ hK)
+  simp only [List.cons_append] at h2
+  constructor
+  · simp only [optChars, List.cons_append]
+    rw [h1, decodeOpt_pos P k d _ _ hno hf', hk]
+    cases hb : boolWord t with
+    | none => simp [readOpt, hn, hb]
+    | some b => cases b <;> simp [readOpt, hn, hb, enc]
+  · simp only [noChars, List.cons_append]
+    rw [h2, decodeOpt_neg P k d n _ _ hf' hk]
+    cases hb : boolWord t with
+    | none => simp [readOpt, hn, hb]
+    | some b => cases b <;> simp [readOpt, hn, hb, enc]
+
+theorem C05_yesno_bare_flags (P : Parser) (k : Key) (d : Decl) (n : YN)
+    (hwf : wfKey k = true) (hno : stripNo (destL k) = none)
+    (hf : findDecl k.segs P.decls = some d) (hk : d.kind = .yesno n) (hn : n ≠ .one) :
+    decodeArg P [String.ofList (optChars k)] = some (skeys P d.key.segs, encScalar (.bool true))
+    ∧ decodeArg P [String.ofList (noChars k)] = some (skeys P d.key.segs, encScalar (.bool false)) := by
+  have hK := destL_notEq hwf
+  have hf' : findDecl (segsOf (destL k)) P.decls = some d := by rw [segsOf_destL k (wfKey_noDot hwf)]; exact hf
+  constructor
+  · simp only [optChars]
+    rw [decodeArg_bare P (destL k) [] hK, decodeOpt_pos P k d _ _ hno hf', hk]
+    simp [readOpt, hn, enc]
+  · simp only [noChars]
+    rw [decodeArg_bare P _ [] (no_notEq _ hK), decodeOpt_neg P k d n _ _ hf' hk]
+    simp [readOpt, hn, enc]
+
+/-! ## list-valued options: `_is_action_value_list` -/
+
+/-- nargs 1, 2, '+', '*' are list-valued; no nargs, '?', 0 are not -/
+theorem C05_is_action_value_list :
+    (∀ n : NArgs, isActionValueList n.raw = true) ∧ isActionValueList .none = false ∧ isActionValueList .q = false
+    ∧ isActionValueList (.int 0) = false ∧ isActionValueList (.int 1) = true := by
+  refine ⟨fun n => ?_, rfl, rfl, rfl, rfl⟩
+  cases n <;> rfl
 
 /-- row 5d, first half: `0123` is not the text of any value of the grammar — `load_basic` reads 123 (YAML reads 83) -/
 theorem C05_ambiguous_0123 : loadText "0123" = none ∧ loadBasic "0123" = .int 123 ∧ loadText "123" = some (.sc (.int 123)) := by
@@ -108,7 +199,8 @@ theorem C05_envvar_collision_case :
 /-! ## every channel delivers the settings -/
 
 /-- equal leaves hold equal values: the tagging of booleans and strings inside the Namespace model loses nothing -/
-theorem C05_enc_injective (v w : Val) (h : enc v = enc w) : v = w := enc_inj h
+theorem C05_enc_injective (v w : Val) (sv : safeVal v = true) (sw : safeVal w = true) (h : enc v = enc w) : norm v = norm w :=
+  enc_inj sv sw h
 
 /-- every channel accepts the settings and yields the namespace obtained by assigning them to the base -/
 theorem C05_apply_render (P : Parser) (S : Settings) (ns : KV) (c : Channel)
@@ -158,9 +250,51 @@ theorem C05_channels_reads (P : Parser) (S : Settings) (ns : KV) (c : Channel)
   rw [this, lastWrite_of_mem _ _ A hdA hmem]
   rfl
 
+/-- a float setting: every channel delivers the same TOKEN at the float position (and all channels give the same namespace) -/
+theorem C05_float_token_channels (P : Parser) (S : Settings) (ns : KV) (k : Key) (t : NumTok) (c c' : Channel)
+    (hp : goodParser P = true) (hs : goodSettings P S = true) (hc : covers P S ns = true) (hmem : (k, .sc (.num t)) ∈ S) :
+    apply P (render P c S) ns = apply P (render P c' S) ns
+    ∧ ∃ r, apply P (render P c S) ns = some r ∧ getK (skeys P k.segs) r = some (enc (.sc (.num t))) := by
+  refine ⟨C05_channels P S ns c c' hp hs hc, ?_⟩
+  obtain ⟨r, hr, hall⟩ := C05_channels_reads P S ns c hp hs
+  exact ⟨r, hr, hall _ hmem⟩
+
+/-- a yes/no setting: whatever the word, its capitalisation and the option spelling (`--k`, `--no_k`, `--k=word`, `--no_k=word`,
+    the variable's word, the JSON boolean of a document, the bool of an object), every channel stores the same boolean -/
+theorem C05_yesno_channels (P : Parser) (S : Settings) (ns : KV) (k : Key) (w : YWord) (c c' : Channel)
+    (hp : goodParser P = true) (hs : goodSettings P S = true) (hc : covers P S ns = true) (hmem : (k, .yesno w) ∈ S) :
+    apply P (render P c S) ns = apply P (render P c' S) ns
+    ∧ ∃ r, apply P (render P c S) ns = some r ∧ getK (skeys P k.segs) r = some (encScalar (.bool (ynBool w))) := by
+  refine ⟨C05_channels P S ns c c' hp hs hc, ?_⟩
+  obtain ⟨r, hr, hall⟩ := C05_channels_reads P S ns c hp hs
+  exact ⟨r, hr, hall _ hmem⟩
+
+/-- a list-valued option (nargs 1, 2, '+', '*'): `--k v1 v2 …` (or `--k=v` for one item), the variable's JSON list, the list of
+    a document / object: every channel stores the same list -/
+theorem C05_nargs_channels (P : Parser) (S : Settings) (ns : KV) (k : Key) (xs : List Scalar) (c c' : Channel)
+    (hp : goodParser P = true) (hs : goodSettings P S = true) (hc : covers P S ns = true) (hmem : (k, .list xs) ∈ S) :
+    apply P (render P c S) ns = apply P (render P c' S) ns
+    ∧ ∃ r, apply P (render P c S) ns = some r ∧ getK (skeys P k.segs) r = some (.lst (xs.map encScalar)) := by
+  refine ⟨C05_channels P S ns c c' hp hs hc, ?_⟩
+  obtain ⟨r, hr, hall⟩ := C05_channels_reads P S ns c hp hs
+  exact ⟨r, hr, hall _ hmem⟩
+
+/-- the bare item of a list-valued option in an environment variable (`APP_SEED=5` for `nargs=1`) is the one-item list -/
+theorem C05_nargs_env_bare (n : NArgs) (er : Bool) (x : Scalar) (hm : scalarIsStr x = er) (hsafe : safeScalar x = true)
+    (hnl : ∀ xs, loadL (argChars (.sc x)) ≠ some (.list xs)) :
+    readLeafK (.nlist n er) (argChars (.sc x)) = some (.list [x]) := by
+  have e : readLeafK (.nlist n er) (argChars (.sc x))
+      = (match loadL (argChars (.sc x)) with
+         | some (.list xs) => some (.list xs)
+         | _ => (readElem er (argChars (.sc x))).map (fun s => .list [s])) := rfl
+  rw [e]
+  split
+  · rename_i xs h; exact absurd h (hnl xs)
+  · simp only [readElem_ok er x hm hsafe, Option.map_some]
+
 /-- an undeclared key is rejected on the command line, in a document and in an object (dotted spelling) -/
 theorem C05_unknown_rejected (P : Parser) (S : Settings) (ns : KV) (kv : Key × Val) (hkv : kv ∈ S)
-    (hwf : wfKey kv.1 = true) (hun : findDecl kv.1.segs P.decls = none) :
+    (hwf : wfKey kv.1 = true) (hno : stripNo (destL kv.1) = none) (hun : findDecl kv.1.segs P.decls = none) :
     apply P (render P .argv S) ns = none ∧ apply P (render P .cfgDotted S) ns = none
     ∧ apply P (render P .objDotted S) ns = none := by
   have tr : ∀ {α β : Type} (f : α → Option β) (l : List α) (a : α), a ∈ l → f a = none → traverse f l = none := by
@@ -177,11 +311,17 @@ theorem C05_unknown_rejected (P : Parser) (S : Settings) (ns : KV) (kv : Key × 
         | some b => simp [ih a h' hf]
   have hseg : segsOf (dest kv.1).toList = kv.1.segs := C05_dotted_key kv.1 hwf
   refine ⟨?_, ?_, ?_⟩
-  · have : decodeArg P (argTok kv) = none := by
-      have tw := takeWhile_stop' (p := notEq) (destL kv.1) '=' (argChars kv.2) (destL_notEq hwf) (by decide)
-      simp only [decodeArg, argTok, String.toList_ofList, and_self, if_true, tw.1, tw.2,
-        segsOf_destL kv.1 (wfKey_noDot hwf), hun]
-    simp only [apply, decode, render, tr (decodeArg P) (S.map argTok) (argTok kv) (List.mem_map.mpr ⟨kv, hkv, rfl⟩) this]
+  · have hkind : kindOf P kv.1 = .json := by simp [kindOf, hun]
+    have hg : argGroup .json kv.1 kv.2 = [String.ofList (optChars kv.1 ++ '=' :: argChars kv.2)] := by
+      cases kv.2 <;> rfl
+    have : decodeArg P (argGroup (kindOf P kv.1) kv.1 kv.2) = none := by
+      have h1 := decodeArg_eq P (destL kv.1) (argChars kv.2) (destL_notEq hwf)
+      rw [hkind, hg]
+      simp only [optChars, List.cons_append]
+      rw [h1]
+      simp only [decodeOpt, negTarget, hno, segsOf_destL kv.1 (wfKey_noDot hwf), hun]
+    simp only [apply, decode, render,
+      tr (decodeArg P) (S.map fun kv => argGroup (kindOf P kv.1) kv.1 kv.2) _ (List.mem_map.mpr ⟨kv, hkv, rfl⟩) this]
   · have hm : (segsOf (dest kv.1).toList, textOf kv.2) ∈ (S.map fun kv => (dest kv.1, textOf kv.2)).map (fun e => (segsOf e.1.toList, e.2)) := by
       simp only [List.map_map, List.mem_map]
       exact ⟨kv, hkv, rfl⟩
@@ -195,42 +335,53 @@ theorem C05_unknown_rejected (P : Parser) (S : Settings) (ns : KV) (kv : Key × 
 
 /-! ## non-vacuity: the hypotheses hold for a non-trivial parser with the regenerated clash table -/
 
+def tok1e5 : NumTok := ⟨false, ['1'], none, some ⟨false, none, ['5']⟩⟩
+
 def exParser : Parser :=
   ⟨Jap.Gen.clashNames, some "my-app",
-   [⟨⟨"lr", []⟩, false⟩, ⟨⟨"g", ["name"]⟩, true⟩, ⟨⟨"g", ["s", "items"]⟩, false⟩, ⟨⟨"keys", []⟩, false⟩, ⟨⟨"opt", []⟩, false⟩]⟩
+   [⟨⟨"lr", []⟩, .json⟩, ⟨⟨"g", ["name"]⟩, .raw⟩, ⟨⟨"g", ["s", "items"]⟩, .json⟩, ⟨⟨"keys", []⟩, .json⟩, ⟨⟨"opt", []⟩, .json⟩,
+    ⟨⟨"verbose", []⟩, .yesno .opt⟩, ⟨⟨"g", ["color"]⟩, .yesno .bare⟩, ⟨⟨"size", []⟩, .nlist .n2 false⟩, ⟨⟨"tags", []⟩, .nlist .plus true⟩]⟩
 
 def exSettings : Settings :=
-  [(⟨"g", ["s", "items"]⟩, .list [.int 1, .bool true, .null, .str "a, b"]), (⟨"keys", []⟩, .dict [("a", 1), ("b c", -2)]),
-   (⟨"g", ["name"]⟩, .sc (.str "0123")), (⟨"lr", []⟩, .sc (.int (-5)))]
+  [(⟨"g", ["s", "items"]⟩, .list [.int 1, .bool true, .null, .str "a, b", .num tok1e5]), (⟨"keys", []⟩, .dict [("a", 1), ("b c", -2)]),
+   (⟨"g", ["name"]⟩, .sc (.str "0123")), (⟨"lr", []⟩, .sc (.num ⟨true, ['2'], some ['5'], some ⟨true, some true, ['0', '3']⟩⟩)),
+   (⟨"verbose", []⟩, .yesno ⟨"YES", some "False"⟩), (⟨"g", ["color"]⟩, .yesno ⟨"No", none⟩),
+   (⟨"size", []⟩, .list [.int 3, .int 4]), (⟨"tags", []⟩, .list [.str "exp 1"])]
 
 def exBase : KV :=
   [(mark Jap.Gen.clashNames "lr", .atom 0),
    (mark Jap.Gen.clashNames "g", .ns [(mark Jap.Gen.clashNames "name", enc (.sc (.str "x"))),
-      (mark Jap.Gen.clashNames "s", .ns [(mark Jap.Gen.clashNames "items", .lst [])])]),
-   (mark Jap.Gen.clashNames "keys", .dct []), (mark Jap.Gen.clashNames "opt", .none)]
+      (mark Jap.Gen.clashNames "s", .ns [(mark Jap.Gen.clashNames "items", .lst [])]),
+      (mark Jap.Gen.clashNames "color", enc (.sc (.bool true)))]),
+   (mark Jap.Gen.clashNames "keys", .dct []), (mark Jap.Gen.clashNames "opt", .none),
+   (mark Jap.Gen.clashNames "verbose", enc (.sc (.bool false))), (mark Jap.Gen.clashNames "size", .lst [.atom 1, .atom 1]),
+   (mark Jap.Gen.clashNames "tags", .lst [])]
 
 example : goodParser exParser = true ∧ goodSettings exParser exSettings = true ∧ covers exParser exSettings exBase = true
     ∧ (mark Jap.Gen.clashNames "keys").marked = true := by decide
 
 example : render exParser .argv exSettings
-    = .argv ["--g.s.items=[1, true, null, \"a, b\"]", "--keys={\"a\": 1, \"b c\": -2}", "--g.name=0123", "--lr=-5"] := by decide
+    = .argv [["--g.s.items=[1, true, null, \"a, b\", 1e5]"], ["--keys={\"a\": 1, \"b c\": -2}"], ["--g.name=0123"], ["--lr=-2.5E+03"],
+             ["--no_verbose=False"], ["--no_g.color"], ["--size", "3", "4"], ["--tags=exp 1"]] := by decide
 
 example : render exParser .env exSettings
-    = .env [("MY_APP_G__S__ITEMS", "[1, true, null, \"a, b\"]"), ("MY_APP_KEYS", "{\"a\": 1, \"b c\": -2}"),
-            ("MY_APP_G__NAME", "0123"), ("MY_APP_LR", "-5")] := by decide
+    = .env [("MY_APP_G__S__ITEMS", "[1, true, null, \"a, b\", 1e5]"), ("MY_APP_KEYS", "{\"a\": 1, \"b c\": -2}"),
+            ("MY_APP_G__NAME", "0123"), ("MY_APP_LR", "-2.5E+03"), ("MY_APP_VERBOSE", "YES"), ("MY_APP_G__COLOR", "No"),
+            ("MY_APP_SIZE", "[3, 4]"), ("MY_APP_TAGS", "[\"exp 1\"]")] := by decide
 
-/-- document order of the nested mapping: `g.s.items` and `g.name` become neighbours -/
+/-- document order of the nested mapping: the `g.*` keys become neighbours; yes/no settings are JSON booleans -/
 example : render exParser .cfgNested exSettings
-    = .cfgNested [(["g", "s", "items"], "[1, true, null, \"a, b\"]"), (["g", "name"], "\"0123\""),
-                  (["keys"], "{\"a\": 1, \"b c\": -2}"), (["lr"], "-5")] := by decide
+    = .cfgNested [(["g", "s", "items"], "[1, true, null, \"a, b\", 1e5]"), (["g", "name"], "\"0123\""), (["g", "color"], "false"),
+                  (["keys"], "{\"a\": 1, \"b c\": -2}"), (["lr"], "-2.5E+03"), (["verbose"], "true"), (["size"], "[3, 4]"),
+                  (["tags"], "[\"exp 1\"]")] := by decide
 
 /-! ## without a covering base the namespaces agree only up to key order -/
 
 def keyOrder (r : Option KV) : Option (List String) := r.map (fun kvs => kvs.map (·.1.name))
 
 theorem C05_order_without_cover :
-    keyOrder (apply exParser (render exParser .argv exSettings) []) = some ["g", "keys", "lr"]
-    ∧ keyOrder (apply exParser (render exParser .env exSettings) []) = some ["lr", "g", "keys"]
+    keyOrder (apply exParser (render exParser .argv exSettings) []) = some ["g", "keys", "lr", "verbose", "size", "tags"]
+    ∧ keyOrder (apply exParser (render exParser .env exSettings) []) = some ["lr", "g", "keys", "verbose", "size", "tags"]
     ∧ covers exParser exSettings [] = false := by decide
 
 end Jap.Props.C05
